@@ -31,6 +31,8 @@ const smtPrelude = `
 (define-fun streq ((a Str) (b Str)) Bool (= (skey a) (skey b)))
 (declare-fun sconcat (Str Str) Str)
 (define-fun b2i ((b Bool)) Int (ite b 1 0))
+(declare-fun sidx (Int Int) Int)
+(assert (forall ((a Int) (b Int)) (! (= (sidx a b) (+ a b)) :pattern ((sidx a b)))))
 `
 
 // Script is an append-only list of SMT commands; obligations remember a prefix length.
